@@ -187,8 +187,49 @@ func runConn(c *mon.Case, r *mon.Run, dir string, p params) {
 		c.Go(wg.Done, func() {
 			off := 0
 			wr := mon.NewRand(p.seed ^ 0x77)
+			// packets that carry no payload at all (type payload, length 0) with
+			// every amount of padding incl. none — what the format calls padding,
+			// and what an implementation is free to send between data at any time
+			padOnly := func(pads ...int) bool {
+				var out []byte
+				for _, pl := range pads {
+					out = append(out, rc.Enc.DataFrame(nil, pl)...)
+					r.Count("ref_padding_only_packets", 1)
+					if pl == 0 {
+						r.Count("ref_empty_packets", 1)
+					}
+				}
+				if _, err := rc.Conn.Write(out); err != nil {
+					viol("interop/ref-write-failed", "reference Write (padding-only packets): %v", err)
+					return false
+				}
+				return true
+			}
+			if p.seed%3 == 0 {
+				var sweep []int
+				if r.Thorough() {
+					for pl := 0; pl <= ref.MaxPacketData; pl++ {
+						sweep = append(sweep, pl)
+					}
+				} else {
+					sweep = []int{0, 1, 2, 3, 20, 21, 22, 23, 1425, 1426, 1427, 0, 0}
+					for k := 0; k < 12; k++ {
+						sweep = append(sweep, wr.IntN(ref.MaxPacketData+1))
+					}
+				}
+				for i := 0; i < len(sweep); i += 64 {
+					if !padOnly(sweep[i:min(len(sweep), i+64)]...) {
+						return
+					}
+				}
+			}
 			for _, sz := range refScript {
 				time.Sleep(2 * time.Millisecond)
+				if wr.IntN(2) == 0 {
+					if !padOnly([]int{0, 0, 1, 21, 1427, wr.IntN(ref.MaxPacketData + 1)}[wr.IntN(6)]) {
+						return
+					}
+				}
 				maxData := []int{0, 1, 7, 733, 1427}[wr.IntN(5)]
 				if sz > 3000 && maxData > 0 && maxData < 100 {
 					maxData = 733
